@@ -42,6 +42,7 @@ namespace bxdecay0 {
 
   void Co60(i_random & prng_, event & event_, const double tcnuc_, double & tdnuc_)
   {
+    BXDECAY0_VERIF_SCOPE("scheme:Co60", tcnuc_);
     // static const double pi = M_PI;
     static const double twopi = 2 * M_PI;
     // double twopi = 2 * M_PI;
